@@ -24,7 +24,7 @@ class Profile(object):
     def __init__(self, allowed, weights=None, required=(), numeric="grid", max_nodes=3, max_classes=3,
                  plans=("max_time",), horizon=(4.0, 16.0), budget=600, max_c=3, caps=(0, 1, 2, 3),
                  resumptions=(1, 3), load="mixed", excluded=(), seq_len=5, require_any=(), stay=0.0, finite_arrivals=0.0,
-                 router_kinds=None, routing_kinds=None, min_dests=1, long_service=0.0):
+                 router_kinds=None, routing_kinds=None, min_dests=1, long_service=0.0, node_kinds=None):
         self.allowed = set(allowed)
         self.weights = dict(weights or {})
         self.required = set(required)
@@ -47,6 +47,7 @@ class Profile(object):
         self.routing_kinds = routing_kinds          # override of the per-class routing kinds
         self.min_dests = min_dests                  # least number of destinations of a JSQ / LB router
         self.long_service = long_service            # probability that a (grid) service distribution is drawn from the long-duration grid
+        self.node_kinds = node_kinds                # fixed server kinds per node position, e.g. ("slotted", "schedule"): a pipeline shape
 
     def w(self, f, default=0.3):
         if f not in self.allowed:
@@ -320,6 +321,8 @@ def routing(draw, prof, n, self_loops, jockey, kinds):
 @st.composite
 def netspec(draw, prof):
     n = draw(st.integers(1, prof.max_nodes))
+    if prof.node_kinds:
+        n = len(prof.node_kinds)
     ncls = draw(st.integers(1, prof.max_classes))
     names = ["C%d" % i for i in range(ncls)]
     on = {f: _flag(draw, prof.w(f)) for f in ALL_FEATURES}
@@ -350,7 +353,7 @@ def netspec(draw, prof):
             nd["servers"] = draw(st.sampled_from([{"kind": "inf"}, {"kind": "int", "c": 1}, {"kind": "int", "c": 2}, {"kind": "int", "c": 3}]))
             nd["ps_threshold"] = draw(st.integers(1, 3))
         else:
-            nd["servers"] = servers(draw, prof, server_kinds)
+            nd["servers"] = servers(draw, prof, [prof.node_kinds[i]] if prof.node_kinds else server_kinds)
         nd["cap"] = "inf"
         if on["capacity"] and _flag(draw, 0.7):
             nd["cap"] = draw(st.sampled_from(prof.caps))
